@@ -102,7 +102,7 @@ def bounded_selection(ctx, rule, check_limit_arg=True):
     # (ii) final phase: a truncate and a sort lie on every path from the end of the source to the first pop
     fin_truncs = [tb for tb, _, _ in truncs if not cfg.in_loop(tb) and cfg.path_exists(tb, pop)]
     done_asg = [bi for bi, si, st in nb.iter_stmts() if st["k"] == "assign" and st["place"]["p"] and not nb.blocks[bi]["cleanup"]
-                and (U.field_path(sy.place(st["place"])) or (0, 0, [None]))[2][-1:] == ["done"]]
+                and (U.field_path(sy.dest(st["place"])) or (0, 0, [None]))[2][-1:] == ["done"]]
     key = "final-sort-truncate-reverse"
     ok = bool(fin_truncs) and bool(revs) and bool(done_asg)
     if ok:
